@@ -79,6 +79,7 @@ impl Model {
                     viol!(self, at, "C08", "var-get", "Var::get of var {} returned {:?}, logical value is {:?}", vid, val, self.vars[*vid].value);
                 }
             }
+            Ev::Alive { hids } => self.on_alive(at, hids),
             Ev::Audit { lines, .. } => {
                 self.cov.audits += 1;
                 for l in lines {
@@ -263,9 +264,16 @@ impl Model {
             Act::Memoize { m, src } => {
                 debug_assert_eq!(*m, self.memo_srcs.len());
                 self.memo_srcs.push(*src);
+                self.memo_held.push(true);
             }
-            Act::MemoCall { m, key, hid, fresh, prev_alive } => self.on_memo_call(at, *m, *key, *hid, *fresh, *prev_alive),
-            Act::DropMemo { .. } => {}
+            Act::MemoCall { m, key, hid, fresh, prev_alive } => {
+                self.on_memo_call(at, *m, *key, *hid, *fresh, *prev_alive);
+                // a top-level call hands the node to the driver, which keeps it as a handle
+                if ctx == Ctx::Top && *hid != usize::MAX {
+                    self.nodes[*hid].held = true;
+                }
+            }
+            Act::DropMemo { m } => self.memo_held[*m] = false,
             Act::IsStable { res } => self.on_is_stable(at, ctx, *res),
             Act::SetMaxHeight { .. } => {}
             Act::DropState => self.state_alive = false,
@@ -341,6 +349,8 @@ impl Model {
             }
             s.delivered_this_round = false;
         }
+        self.reach_start = self.reachable();
+        self.nodes_at_round_start = self.nodes.len();
         self.nec_before_round = self.necessary.clone();
         self.refresh_necessity();
         self.cone_start = self.necessary.clone();
@@ -488,6 +498,14 @@ impl Model {
                 Some(MV::P(a, b)) => Some(MV::I(if *proj == 0 { a } else { b })),
                 _ => None,
             },
+            RK::ZipQ { a, b } => match (self.val(*a), self.cached_i(*b)) {
+                (Some(MV::P(x, y)), Some(z)) => Some(MV::Q(x, y, z)),
+                _ => None,
+            },
+            RK::MapRefQ { src } => match self.val(*src) {
+                Some(MV::Q(a, b, _)) => Some(MV::P(a, b)),
+                _ => None,
+            },
             RK::DependOn { a, .. } => self.val(*a),
             RK::Bind { .. } => match n.rhs {
                 Some(r) if !self.nodes[r].invalid => self.val(r),
@@ -519,10 +537,12 @@ impl Model {
             (RK::MapWithOld { .. }, Some(o)) => o != new,
             // depend_on installs a cutoff comparing the two nodes' change stamps (until replaced)
             (RK::DependOn { a, .. }, Some(_)) if !self.nodes[h].cutoff_set => self.nodes[*a].last_changed != self.nodes[h].last_changed,
-            (RK::MapRef { src, proj }, Some(o)) => {
+            (RK::MapRef { src, .. } | RK::MapRefQ { src }, Some(o)) => {
                 let s = &self.nodes[*src];
-                let pr = |v: Option<MV>| match v {
-                    Some(MV::P(a, b)) => Some(MV::I(if *proj == 0 { a } else { b })),
+                let rk = self.nodes[h].rk.clone();
+                let pr = move |v: Option<MV>| match (&rk, v) {
+                    (RK::MapRef { proj, .. }, Some(MV::P(a, b))) => Some(MV::I(if *proj == 0 { a } else { b })),
+                    (RK::MapRefQ { .. }, Some(MV::Q(a, b, _))) => Some(MV::P(a, b)),
                     _ => None,
                 };
                 // a node that stayed linked since its last recompute has heard of every change of
@@ -678,15 +698,26 @@ impl Model {
         let Some(h) = target else { return };
         let n = &self.nodes[h];
         let direct = n.prev_value == Some(old) && n.value == Some(new);
-        // a map_ref child consults its cutoff on the projections, from inside child_changed
-        let proj = |v: Option<MV>, p: u8| match v {
-            Some(MV::P(a, b)) => Some(MV::I(if p == 0 { a } else { b })),
-            _ => None,
-        };
+        // map_ref dependants (possibly chained) consult their cutoffs on projections of the node
+        // that just ran, from inside child_changed
         let last = self.run_order.last().map(|(h, _)| *h);
         let via_ref = last.map_or(false, |l| {
             let ln = &self.nodes[l];
-            (0..2).any(|p| proj(ln.prev_value, p) == Some(old) && proj(ln.value, p) == Some(new))
+            let mut cands: Vec<(Option<MV>, Option<MV>)> = vec![(ln.prev_value, ln.value)];
+            let mut i = 0;
+            while i < cands.len() && cands.len() < 16 {
+                let (a, b) = cands[i];
+                match (a, b) {
+                    (Some(MV::Q(a1, a2, _)), Some(MV::Q(b1, b2, _))) => cands.push((Some(MV::P(a1, a2)), Some(MV::P(b1, b2)))),
+                    (Some(MV::P(a1, a2)), Some(MV::P(b1, b2))) => {
+                        cands.push((Some(MV::I(a1)), Some(MV::I(b1))));
+                        cands.push((Some(MV::I(a2)), Some(MV::I(b2))));
+                    }
+                    _ => {}
+                }
+                i += 1;
+            }
+            cands.iter().skip(1).any(|(a, b)| *a == Some(old) && *b == Some(new))
         });
         let swapped = n.prev_value == Some(new) && n.value == Some(old) && old != new;
         if swapped && !direct && !via_ref {
@@ -708,6 +739,8 @@ pub fn kind_name(rk: &RK) -> &'static str {
         RK::Fold { .. } => "fold",
         RK::Zip { .. } => "zip",
         RK::MapRef { .. } => "map_ref",
+        RK::ZipQ { .. } => "zip(pair, scalar)",
+        RK::MapRefQ { .. } => "map_ref(of triple)",
         RK::MapWithOld { .. } => "map_with_old",
         RK::DependOn { .. } => "depend_on",
         RK::Bind { .. } => "bind",
